@@ -231,6 +231,11 @@ def worker(run, job):
 
 def check(run, replay=None):
     if replay:
+        c = json.load(open(replay))
+        if isinstance(c, dict) and c.get('cmd') == 'searchdet':
+            run.build()
+            from . import searchreplay
+            return searchreplay.replay_file(run, c)
         print('C16 findings are structural; see the replay file')
         return 1
     run.build()
@@ -248,3 +253,5 @@ def check(run, replay=None):
     run.outside += ['separate processes / machine load as such', 'hash iteration order inside std (not reachable: checked by SCAN)']
     run.stubs |= {'abstract game', 'clock: fresh non-decreasing values', 'bench: from_fen and Search::search summarised'}
     run.parallel(worker, jobs)
+    from . import searchreplay
+    searchreplay.confirm_on_real_engine(run, 'det')
